@@ -92,7 +92,10 @@ impl<R: InnerReaderTrait> Seek for RawLayerReader<R> {
     fn seek(&mut self, ask_pos: SeekFrom) -> io::Result<u64> {
         match ask_pos {
             SeekFrom::Start(pos) => {
-                self.inner.seek(SeekFrom::Start(self.offset_pos + pos))?;
+                self.inner
+                    .seek(SeekFrom::Start(self.offset_pos.checked_add(pos).ok_or_else(
+                        || io::Error::new(io::ErrorKind::InvalidInput, "Position out of range"),
+                    )?))?;
                 Ok(pos)
             }
             SeekFrom::Current(_pos) => {
